@@ -28,6 +28,7 @@ impl AtomicBool {
 }
 // identities of shared handles: clone() returns the SAME flag / lock / supervisor
 pub struct PoisonSignal { pub id: Ghost<int> }
+impl PoisonSignal { #[verifier::external_body] pub fn default() -> (r: PoisonSignal) { unimplemented!() } }   // a FRESH flag (derive(Default))
 impl Clone for PoisonSignal { #[verifier::external_body] fn clone(&self) -> (r: PoisonSignal) ensures r.id == self.id { unimplemented!() } }
 pub struct LockedFileGuard { pub id: Ghost<int> }        // Arc<LockedFileGuardInner>: the flock on <db>/lock lives as long as any clone
 impl Clone for LockedFileGuard { #[verifier::external_body] fn clone(&self) -> (r: LockedFileGuard) ensures r.id == self.id { unimplemented!() } }
